@@ -163,6 +163,7 @@ inductive Pkt
   | other                         -- any other well-formed packet
   | garbage                       -- undecodable bytes or EOF: `ReadPacket` returns an error
   | timeout                       -- the 5 s timer of `connectWithTimeOut` fires (not a packet)
+  | hangup                        -- `writeLoop` has ended and closed the socket (not a packet; fix 53130f4)
   deriving Repr, Inhabited, DecidableEq
 
 inductive EnhResp | success | cont (data : String) | fail (code : Nat)
@@ -178,17 +179,19 @@ structure Cfg where
   /-- OnBasicAuth chain: `none` = no hook (everything accepted); the auth plugin installs `validate` -/
   basic : Option (String → String → Bool) := none
   enh : Option EnhHook := none
-  /-- false = the code as it is: after handing a packet to `client.in` the read loop waits for `<-client.connected`,
-      which `connectWithTimeOut` closes only when it RETURNS; while an enhanced authentication is in progress nothing
-      is read from the socket, so the client's AUTH answer is never seen and the exchange ends by the 5 s timeout.
-      true = the read loop goes on reading during the exchange (finding c19-enhanced-auth-deadlock). -/
-  authReadFix : Bool := false
+  /-- true = the code since fix b5c09eb: the read loop goes on reading while an enhanced authentication is in progress
+      (`authStep`). false = before: after handing a packet to `client.in` the read loop waited for `<-client.connected`,
+      which `connectWithTimeOut` closes only when it RETURNS, so the client's AUTH answer was never seen and the
+      exchange ended by the 5 s timeout (findings/c19-enhanced-auth-deadlock.md). -/
+  authReadFix : Bool := true
 
 inductive Phase
   | awaitConnect      -- in the `for` loop of connectWithTimeOut, no CONNECT seen
   | awaitAuth         -- CONNECT seen, enhanced authentication in progress (`onAuth != nil`)
   | accepted          -- registered; packets go to readHandle
-  | rejected          -- connectWithTimeOut returned false; nobody reads `client.in` any more
+  | rejected          -- connectWithTimeOut returned false: nobody reads `client.in` any more, writeLoop flushes the
+                      -- CONNACK and closes the socket (`hangup`); until then the read loop may still consume what
+                      -- the peer had already sent (packets pipelined behind the CONNECT)
   | closed            -- the broker closed the socket
   deriving DecidableEq, Repr, Inhabited
 
@@ -197,7 +200,6 @@ structure Conn where
   version : Nat := 0            -- client.version, 0 until connectHandler stores it
   conn : Option ConnectPkt := none
   buffered : Nat := 0           -- packets parked in `client.in` (capacity 8) after rejection
-  wedged : Bool := false        -- readLoop blocked on `client.in <-` forever
   unread : List Pkt := []       -- sent by the client but still in the socket (read loop waiting for `connected`)
   deriving Repr, Inhabited, DecidableEq
 
@@ -288,16 +290,19 @@ def connectLoop (cfg : Cfg) (c : Conn) : Pkt → Conn × List Eff
           | none => (c, [])
   | _ => ({ c with phase := .rejected }, [errConnack c.version 0x81, .statPkt])
 
-/-- a packet arriving after `connectWithTimeOut` returned false: read, counted, parked — never handled -/
+/-- an input after `connectWithTimeOut` returned false: a packet is read, counted, parked in `client.in` — never
+    handled; when `client.in` is full the read loop leaves through `<-client.close` (fix 1a613fd). `hangup` = writeLoop
+    has flushed the CONNACK and closed the socket. (The read loop may also leave through `<-client.close` while
+    `client.in` still has room — Go picks at random; that branch has the effects of `hangup`.) -/
 def rejectedStep (c : Conn) (p : Pkt) : Conn × List Eff :=
   if p == .timeout then (c, []) else
   if c.phase != .rejected then (c, []) else
-  if c.wedged then (c, [])        -- not even read from the socket
+  if p == .hangup then ({ c with phase := .closed }, [.closeSocket])
   else
     let (effs, go) := readLoopPre c p
     if !go then ({ c with phase := .closed }, effs ++ [.closeSocket])
     else if c.buffered < 8 then ({ c with buffered := c.buffered + 1 }, effs ++ [.statPkt])
-    else ({ c with wedged := true }, effs)
+    else ({ c with phase := .closed }, effs ++ [.closeSocket])
 
 def rejectedRun (c : Conn) : List Pkt → Conn × List Eff
   | [] => (c, [])
@@ -313,6 +318,7 @@ def step (cfg : Cfg) (c : Conn) (p : Pkt) : Conn × List Eff :=
   | .closed => (c, [])
   | .rejected => rejectedStep c p
   | .awaitAuth =>
+    if p == .hangup then (c, []) else
     if p == .timeout then
       -- ErrConnectTimeOut; `connected` is closed, the read loop counts the CONNECT and reads what has piled up
       let (c1, e1) := connectLoop cfg c .timeout
@@ -326,6 +332,7 @@ def step (cfg : Cfg) (c : Conn) (p : Pkt) : Conn × List Eff :=
         let (c', e2) := connectLoop cfg c p
         (c', effs ++ e2)
   | .awaitConnect =>
+    if p == .hangup then (c, []) else
     if p == .timeout then connectLoop cfg c p else
     let (effs, go) := readLoopPre c p
     if !go then ({ c with phase := .closed }, effs ++ [.closeSocket])
